@@ -9,7 +9,7 @@ LEAN_MODULE = "Ctrmml.Properties.C09"
 THEOREMS = ["C09_mds_shape", "C09_track_table_exact", "C09_slot_count", "C09_volume_carried", "C09_ids_injective_partial",
             "C09_ids_injective", "C09_tracks_exact", "C09_index_resolves", "C09_event_names", "C09_data_resolves", "C09_nothing_unused",
             "C09_index_fits_byte", "C09_d19_counterexample_before_fix",
-            "C09_reader_sees_operands_partial", "C09_full_partial", "C09_nothing_unused_bytes", "fullPartialHyps_sound"]
+            "C09_reader_sees_operands_partial", "C09_seq_bytes", "C09_full_partial", "C09_nothing_unused_bytes", "fullPartialHyps_sound"]
 LEVEL = "proof"
 STREAM = "mds.bytes+conv.maps"
 CHUNK = 120
@@ -34,7 +34,7 @@ LEVEL_TEXT = ("Machine-checked over the model of the converter (writer of Model/
               "MdsResolve.resolve to the stream of the subroutine / macro track registered under the writer's key resp. to the content of THE entry holding the data-bank item (C09_full_partial). "
               "Byte-level nothing_unused with the exceptions explicit (C09_nothing_unused_bytes).")
 LEVEL_NOTE = ("Hypothesis PlatformClean: no platform `cmd` injects a raw PAT/INS/PCM/PEG/MTAB opcode (the song names nothing for such an operand). Residual hypotheses of C09_full_partial: every "
-              "channel/subroutine event list in Frag and every stream < 64 KiB, the model's seq holds bytes (< 256), sorted track map, at least one channel track (all decided by "
+              "channel/subroutine event list in Frag and every stream < 64 KiB (then the exported seq consists of bytes: C09_seq_bytes), sorted track map, at least one channel track (all decided by "
               "Spec/MdsFrag.fullPartialHyps, sound by fullPartialHyps_sound, and EVALUATED by the judge on the model's export of every accepted generated song: see the note "
               "'C09_full_partial residual hypotheses' of each run), file < 4 GiB; macro streams resolve when non-empty. Still decided per case by checkFile on the real file only "
               "(C09_full_statement): the comparison of the decoded operands with the SONG's events (namedOf/matchAll/visit work list: which id each operand must name is proved per hook call, "
